@@ -190,4 +190,18 @@ CHECKS = {
         assumptions=["the source does not change (the cache's documented precondition)", "modification times are not compared"],
         legs=[dict(name="cache", run="^TestCache$", quick=600, thorough=6000, shards=8)],
     ),
+    "C11": dict(
+        pkg="c11", level="fault_enumeration",
+        rule=("faults leg: each case = (file size from {0,1,511,512,513,1024,1600,5000}, file at the root or two directories deep, cache store exposing OpenFile+Mkdir or also Remove+Rename, source handles with/without Seek, 1..3 re-opens); a fault-free dry run counts the "
+              "source Read calls and the cache-store calls (Open, OpenFile, Mkdir, Write, Close of the written file, Stat/ReadDir of the MkdirAll fallback); then one run per call index with that call failing: the open must not return success with bytes that differ from the source, "
+              "a failed create/write/close/mkdir of the fill must make Open fail, and every later fault-free open returns either an error or the complete bytes. concurrent leg: 2..4 goroutines open the same uncached file; every Read of the source is gated by the harness, "
+              "which pauses the copy at every chunk boundary, lets the others run (settle 0..400us), and checks that never two source reads are in flight, that all opens return, and that every successful open reads the complete bytes. "
+              "non-trivial = >=2 faults fired in a case; every concurrent case"),
+        assumptions=["waiters blocked on the per-path sync.Mutex cannot be observed directly: the harness sleeps a drawn settle time before releasing the paused copy (affects which schedule is explored, never the verdict)"],
+        legs=[
+            dict(name="faults", run="^TestFaults$", quick=120, thorough=1200, shards=4),
+            dict(name="concurrent", run="^TestConcurrent$", quick=60, thorough=600, shards=4),
+            dict(name="concurrent", run="^TestConcurrent$", thorough=150, shards=1, race=True, tiers=("thorough",), env={"VERIF_LEG_SUFFIX": "-race"}),
+        ],
+    ),
 }
